@@ -324,7 +324,14 @@ fn main() {
                 o = op(name, c);
                 let wl = rng.gen_range(0..=(len.min(12) + 2));
                 let pf: f64 = [0.0, 0.5, 1.0, 0.3][rng.gen_range(0..4)];
-                let w: Vec<&str> = (0..wl).map(|_| if rng.gen_bool(pf) { "n" } else { "b" }).collect();
+                // mostly next / next_back, now and then nth(J) / nth_back(J), J = 1, 2
+                let w: Vec<&str> = (0..wl).map(|_| {
+                    let front = rng.gen_bool(pf);
+                    match (front, rng.gen_range(0..10)) {
+                        (true, 0) => "s1", (true, 1) => "s2", (true, _) => "n",
+                        (false, 0) => "r1", (false, 1) => "r2", (false, _) => "b"
+                    }
+                }).collect();
                 o["a"]["w"] = json!(w);
                 if forget_rate > 0.0 && rng.gen_bool(forget_rate) {
                     o["a"]["fl"] = json!(true);
